@@ -92,7 +92,7 @@ CHECKS = {
                  "hot_cue_at(bad)", "set_hot_cue_at(bad)", "loop_at(bad)", "set_loop_at(bad)", "set_hot_cues(hostile)", "set_loops(hostile)",
                  "set_sample_rate(hostile)", "set_bpm(hostile)", "set_beatgrid(hostile)", "hostile-snapshot", "add_track(nonexistent id)",
                  "crate_by_id(any)", "track_by_id(any)", "create_sub_crate_after(foreign)", "create_root_crate_after(foreign)",
-                 "removed-crate-handle", "removed-track-handle", "set_name(odd)", "create_root_crate(odd)", "lookups(odd)")] +
+                 "removed-crate-handle", "removed-track-handle", "set_name(odd)", "create_root_crate(odd)", "lookups(odd)", "set_parent(descendant)")] +
                        ["cycle-attempt", "helpers(extreme)"])]),
     "C16": dict(level="exploration", parts=[
         dict(prop="REG", harness="api_pbt", quick=dict(count=0, workers=1), thorough=dict(count=0, workers=1)),  # regression scenarios
